@@ -20,7 +20,7 @@ def random_case(prop, rng, tier):
              'name': rng.choice(STRS + [None]), 'resource': rng.choice([None, None, 'ann', 'b;c', '']),
              'start': rng.randrange(-20000, 16400) if rng.random() < 0.4 else None, 'end': rng.randrange(-300, 16000) if rng.random() < 0.3 else None,
              'min_start': rng.randrange(0, 9000) if rng.random() < 0.3 else None,
-             'estimate': rng.choice([None, 0, 3, 2.5, 0.1, 1e-05, 12.75, 100]), 'spent': rng.choice([None, None, 0, 1.5, 8]),
+             'estimate': rng.choice([None, 0, 3, 2.5, 0.1, 1e-05, 12.75, 100, 1e+16]), 'spent': rng.choice([None, None, 0, 1.5, 8, 2e-05]),
              'milestone': rng.random() < 0.15, 'custom': {}}
         for k in ('prio', 'note', 'flag', 'x y'):
             if rng.random() < 0.3:
